@@ -72,6 +72,9 @@ type StoreEngine struct {
 	clients map[int]*storeClient
 	Problem string // set when the harness-side protocol is broken (concurrent scheduled calls)
 	NoTrace bool
+	// open counts, per path, the create-then-fill puts that have created / truncated the file
+	// and not yet closed it (Atomic=false only): the file may be read half-written.
+	open map[string]int
 }
 
 func NewStoreEngine() *StoreEngine {
@@ -81,7 +84,22 @@ func NewStoreEngine() *StoreEngine {
 		Atomic:  true,
 		IsSched: DefaultStoreSched,
 		clients: map[int]*storeClient{},
+		open:    map[string]int{},
 	}
+}
+
+// HalfWritten lists the paths that are being filled right now (create-then-fill discipline).
+func (e *StoreEngine) HalfWritten() []string {
+	e.mu.Lock()
+	defer e.mu.Unlock()
+	var out []string
+	for p, n := range e.open {
+		if n > 0 {
+			out = append(out, p)
+		}
+	}
+	sort.Strings(out)
+	return out
 }
 
 // DefaultStoreSched: journal files, lake magic, commit object puts/deletes and prefix
@@ -380,6 +398,7 @@ type memWriter struct {
 	buf    bytes.Buffer
 	closed bool
 	dead   bool
+	opened bool // counted in StoreEngine.open
 }
 
 func (w *memWriter) Write(p []byte) (int, error) {
@@ -411,7 +430,9 @@ func (w *memWriter) Write(p []byte) (int, error) {
 		v.record("write", w.rel, fmt.Sprintf("crash:%d/%d", n, len(p)), nil, sched)
 		return n, ErrStoreCrashed
 	}
-	v.e.files[w.rel] = append(append([]byte(nil), v.e.files[w.rel]...), p...)
+	if !v.c.readOnly {
+		v.e.files[w.rel] = append(append([]byte(nil), v.e.files[w.rel]...), p...)
+	}
 	v.record("write", w.rel, "ok", p, sched)
 	return len(p), nil
 }
@@ -422,6 +443,12 @@ func (w *memWriter) Close() error {
 	}
 	w.closed = true
 	v := w.v
+	v.e.mu.Lock()
+	if w.opened {
+		v.e.open[w.rel]--
+		w.opened = false
+	}
+	v.e.mu.Unlock()
 	if w.dead {
 		return ErrStoreCrashed
 	}
@@ -462,7 +489,11 @@ func (v *storeView) Put(ctx context.Context, u *storage.URI) (io.WriteCloser, er
 		v.record("create", rel, "crash", nil, sched)
 		return nil, ErrStoreCrashed
 	}
-	v.e.files[rel] = nil // O_CREATE|O_TRUNC
+	if !v.c.readOnly {
+		v.e.files[rel] = nil // O_CREATE|O_TRUNC
+		v.e.open[rel]++
+		w.opened = true
+	}
 	v.record("create", rel, "ok", nil, sched)
 	return w, nil
 }
@@ -504,14 +535,17 @@ func (v *storeView) PutIfNotExists(ctx context.Context, u *storage.URI, b []byte
 		v.e.mu.Unlock()
 		return existsErr(rel)
 	}
-	v.e.files[rel] = nil
+	w := &memWriter{v: v, u: u, rel: rel}
+	if !v.c.readOnly {
+		v.e.files[rel] = nil
+		v.e.open[rel]++
+		w.opened = true
+	}
 	v.record("createx", rel, "ok", nil, sched)
 	v.e.mu.Unlock()
-	w := &memWriter{v: v, u: u, rel: rel}
-	if _, err := w.Write(b); err != nil {
-		return err
-	}
-	return nil
+	_, err := w.Write(b)
+	w.Close()
+	return err
 }
 
 func (v *storeView) Delete(ctx context.Context, u *storage.URI) error {
